@@ -79,7 +79,7 @@ class SpartanProtocol(BaseGopherProtocol):
     def write_status(self, code: int, meta: str) -> None:
         # The status is one line: text echoed from the request (a selector
         # with a percent-encoded line break) must not end it early.
-        meta = re.sub(r"[\r\n]+", " ", meta)
+        meta = meta.replace("\r", " ").replace("\n", " ")
         self.wfile.write(f"{code} {meta}\r\n".encode(errors="backslashreplace"))
 
     def adjust_mimetype(self, mimetype: typing.Optional[str]) -> str:
